@@ -34,7 +34,8 @@ REQUIRED_THEOREMS = ['zero_one_principle', 'bit_sliced_evaluation', 'sorts_of_ke
                      'seclist_and_np_same_network', 'sorted_correct_le_bound', 'np_sorted_correct_le_bound',
                      'sortNet_sorts_partial']
 N01 = 24        # every extracted network with n <= N01 is proved (kernel) to sort all 2^n 0-1 inputs
-NCORR = 64      # extracted networks are compared with the model network sortNet n up to this n
+NLEAN = 32      # extracted networks up to this n go into the Lean table and are proved equal to the model sortNet n
+NCORR = 64      # extracted networks are compared with the model network (Lean driver) up to this n (thorough: 128)
 RULE = ('lists of secure numbers / pairs [key, payload]: all orders of 0..n-1 for n <= 5 (quick) / 6 (thorough), '
         'random lists of length 0..12 with ties; key in {identity, negation, square}; reverse flag; containers '
         'list, seclist, secure array; secint and secfxp; functions sorted, seclist.sort, np_sort, min, max, argmin, '
@@ -43,7 +44,7 @@ RULE = ('lists of secure numbers / pairs [key, payload]: all orders of 0..n-1 fo
 EXPLANATION = ('PROVED (kernel): the comparator sequences executed by the current code for n = 2..24 sort every input '
                '(0-1 principle + bit-sliced check of all 2^n 0-1 inputs) and output a permutation; min/max/argmin/'
                'argmax/min_max are correct for every length (argmin/argmax: first extreme index); the model network '
-               'equals the extracted one for n <= 64. NOT PROVED: that the merge-exchange network sorts for n > 24 '
+               'equals the extracted one for n <= 32 (kernel) and n <= 64 (driver comparison). NOT PROVED: that the merge-exchange network sorts for n > 24 '
                '(Batcher/Knuth 5.2.2M for general n): validated by the extracted-vs-model comparison and the runs only.')
 ASSUMPTIONS = ['secure comparison key(a) < key(b), if_swap and if_else are exact on the values (C01/C04 cover the '
                'protocols); the value layer is what is modelled',
@@ -554,37 +555,32 @@ def extract_all(nmax):
 _GEN = {}
 
 
-def _code(net):
-    return sum((i + 256 * j) << (16 * k) for k, (i, j) in enumerate(net))
-
-
-def _lean_table(name, doc, table):
-    out = [f'/-- {doc}: (n, number of comparators, code); comparator k is the base-65536 digit i + 256*j -/',
-           f'def {name} : List (Nat × Nat × Nat) := [']
-    rows = []
+def _lean_table(name, prefix, doc, table):
+    out = []
     for n in sorted(table):
         net = table[n]
-        assert all(0 <= i < 256 and 0 <= j < 256 for i, j in net)
-        rows.append(f'  -- n = {n}: ' + ' '.join(f'{i}:{j}' for i, j in net[:40]) + (' ...' if len(net) > 40 else '')
-                    + f'\n  ({n}, {len(net)}, {_code(net)})')
-    out.append(',\n'.join(rows))
-    out.append(']\n')
+        out.append(f'def {prefix}{n} : List (Nat × Nat) := [' + ', '.join(f'({i}, {j})' for i, j in net) + ']')
+    out.append(f'/-- {doc}: (n, comparator sequence) -/')
+    out.append(f'def {name} : List (Nat × List (Nat × Nat)) := [' +
+               ', '.join(f'({n}, {prefix}{n})' for n in sorted(table)) + ']\n')
     return out
 
 
 def generate(ctx):
-    nets, sls, nps, err = extract_all(NCORR)
+    nets, sls, nps, err = extract_all(NCORR if not ctx.thorough else 2 * NCORR)
     _GEN.update(nets=nets, sls=sls, nps=nps, err=err)
+    big = nets
+    nets = {n: v for n, v in big.items() if n <= NLEAN}
     lines = ['/- GENERATED by harness/props/c29.py from the running /repo code -- do not edit.',
              '   Comparator sequences executed by Runtime._sort (symbolic trace), seclist.sort (probe keys)',
-             '   and np_sort (index sets), list length n = 2.. ; decoded by MpycV.Sort.decodeNet. -/',
+             '   and np_sort (index sets), list length n = 2.. -/',
              'namespace MpycV.Generated.SortNet', '',
              f'def extractionOk : Bool := {"true" if err is None else "false"}',
              f'-- extraction error: {err}' if err else '',
-             f'def bound01 : Nat := {N01}', f'def boundModel : Nat := {NCORR}', '']
-    lines += _lean_table('sortNetCodes', 'comparators executed by `_sort` on a list of length n', nets)
-    lines += _lean_table('seclistCodes', 'operand positions of the comparisons made by `seclist.sort`', sls)
-    lines += _lean_table('npCodes', 'index pairs (I[k], (I+d)[k]) updated by `np_sort`',
+             f'def bound01 : Nat := {N01}', f'def boundModel : Nat := {NLEAN}', '']
+    lines += _lean_table('sortNets', 'net_', 'comparators executed by `_sort` on a list of length n', nets)
+    lines += _lean_table('seclistNets', 'slNet_', 'operand positions of the comparisons made by `seclist.sort`', sls)
+    lines += _lean_table('npNets', 'npNet_', 'index pairs (I[k], (I+d)[k]) updated by `np_sort`',
                          {n: [tuple(p) for p in nps[n]] for n in nps})
     lines.append('end MpycV.Generated.SortNet')
     text = '\n'.join(lines) + '\n'
